@@ -111,7 +111,7 @@ func runC05(r *Run) {
 			}
 			w := walkVerifier(in, walkOpts{Wrapper: wr, Cap: capPlain, Field: true, PermBN: true, PIBits: 64})
 			if w.Panic != "" || w.Err != nil {
-				r.Infra("walk %s/%s failed: %s %v", in.Name, wr, w.Panic, w.Err)
+				walkFailed(r, in, wr, w)
 				continue
 			}
 			for _, s := range w.F.sites {
